@@ -23,7 +23,7 @@ RULE = ("job lifecycles (enqueue with args bucket, consume, actor run, ack/nack/
 ASSUMPTIONS = ["ground truth is taken by a harness-side class-level wrapper around _middleware_wrapper.__call__ (no repository edit)", "virtual time",
                "the operation's first effect = the first event logged by the broker-boundary recorder inside the wrapped function"]
 EVAL_COUNTER = "operations_judged"
-REQUIRED = ["effects_located", "actor_run_effects_located", "operations_judged", "nested_operations_seen", "failed_operations_seen", "differential_pairs", "two_connection_runs", "op_actor_run", "op_store_bucket", "op_consume", "middleware_method_calls", "twin_middleware_calls"]
+REQUIRED = ["operations_performed_by_subscribers", "effects_located", "actor_run_effects_located", "operations_judged", "nested_operations_seen", "failed_operations_seen", "differential_pairs", "two_connection_runs", "op_actor_run", "op_store_bucket", "op_consume", "middleware_method_calls", "twin_middleware_calls"]
 CASE_TIMEOUT = 150
 
 SUBSETS = ["none", "recording", "raising", "slow", "sync", "partial", "mixed"]
@@ -47,6 +47,9 @@ def V(rule, kind, ctx, detail):
 import contextvars
 
 CUR_OP = contextvars.ContextVar("rv_c17_op", default=None)
+# set by the `followup` subscribers around the operations THEY perform: a subscriber runs before / after the wrapped function,
+# not inside it, so what it does is a top-level operation of its own (and owes its own signals)
+IN_SUB = contextvars.ContextVar("rv_c17_in_subscriber", default=False)
 
 
 def install_spy(rig_log, owner_of):
@@ -61,11 +64,13 @@ def install_spy(rig_log, owner_of):
         # nesting is tracked by the spy itself (own context variable), independently of the flag the code under test uses.
         # Nested = inside the dynamic extent of another wrapped call: a background task that was spawned during an
         # operation and outlives it inherits the variable, but what it does after that operation returned is top-level.
-        nested = (CUR_OP.get() is not None and CUR_OP.get() in running) or self._repid_signal_emitter is None
+        from_sub = IN_SUB.get()
+        nested = (CUR_OP.get() is not None and CUR_OP.get() in running and not from_sub) or self._repid_signal_emitter is None
         ent = {"task": asyncio.current_task(), "no_emitter": self._repid_signal_emitter is None, "name": self.name, "nested": nested, "args": args, "kwargs": kwargs, "owner": owner_of(self, args, kwargs), "enter": rig_log.add(k="truth_enter", op=self.name), "wrapper": self,
-               "opid": len(truth), "parent": CUR_OP.get()}
+               "opid": len(truth), "parent": CUR_OP.get(), "from_subscriber": from_sub}
         truth.append(ent)
         tok = CUR_OP.set(ent["opid"])
+        tok_sub = IN_SUB.set(False)
         running.add(ent["opid"])
         try:
             r = await orig(self, *args, **kwargs)
@@ -76,10 +81,11 @@ def install_spy(rig_log, owner_of):
         finally:
             running.discard(ent["opid"])
             CUR_OP.reset(tok)
+            IN_SUB.reset(tok_sub)
             # settle the children's nesting now that this operation is over: a call made from a task that is still alive
             # (a background task spawned during the operation) ran beside it, not inside it
             for ch in truth[ent["opid"] + 1:]:
-                if ch["parent"] == ent["opid"]:
+                if ch["parent"] == ent["opid"] and not ch["from_subscriber"]:
                     ch["nested"] = ch["no_emitter"] or ch["task"] is ent["task"] or ch["task"].done()
         ent["result"] = r
         ent["exit"] = rig_log.add(k="truth_exit", op=self.name)
@@ -93,11 +99,37 @@ def install_spy(rig_log, owner_of):
     return truth, uninstall
 
 
-def make_subscribers(kind, label, signals, rig_log, names):
+def make_subscribers(kind, label, signals, rig_log, names, conn=None):
     """Subscriber functions named after the signals, of the requested flavour."""
     subs = []
     for name in names:
         def mk(name=name):
+            if kind == "followup":
+                # subscribers that work with the connection themselves (an audit record per enqueued message, a look at it
+                # before a message is dead-lettered, a follow-up job after an actor ran): operations of their own
+                async def g(key=None):
+                    if key is None or str(key.id_).startswith(("audit", "fu-")):
+                        return
+                    tok = IN_SUB.set(True)
+                    try:
+                        rb = conn.results_bucket_broker
+                        if name == "after_enqueue":
+                            from datetime import datetime as _dt
+
+                            rig_log.add(k="followup_op", name=name, conn=label)
+                            await rb.store_bucket(f"audit-{key.id_}", rb.BUCKET_CLASS(data="seen", started_when=1, finished_when=2, success=True, exception=None, timestamp=_dt.now(), ttl=None))
+                        elif name == "before_nack":
+                            rig_log.add(k="followup_op", name=name, conn=label)
+                            await rb.get_bucket(f"audit-{key.id_}")
+                        elif name == "after_actor_run" and str(key.id_).endswith("-a"):
+                            from repid import Job as _Job
+
+                            rig_log.add(k="followup_op", name=name, conn=label)
+                            await _Job("act", id_=f"fu-{key.id_}", queue=key.queue, args={"script": {"do": "ok"}}, args_id=f"args-fu-{key.id_}", store_result=False, _connection=conn).enqueue()
+                    finally:
+                        IN_SUB.reset(tok)
+                g.__name__ = name
+                return g
             if kind == "recording":
                 async def f(**kw):
                     signals.append({"conn": label, "name": name, "kwargs": kw, "n": rig_log.add(k="signal", name=name, conn=label)})
@@ -225,11 +257,11 @@ async def lifecycle(loop, case, subset, record):
         w.log.extra = lambda: {"opid": CUR_OP.get()}
         signals = []
         names = sorted(SUBSCRIBERS_NAMES)
-        flavours = {"none": [], "recording": ["recording"], "raising": ["raising", "recording"], "slow": ["slow", "recording"], "sync": ["sync", "recording"],
+        flavours = {"followup": ["followup", "recording"], "none": [], "recording": ["recording"], "raising": ["raising", "recording"], "slow": ["slow", "recording"], "sync": ["sync", "recording"],
                     "partial": ["partial", "noargs", "needy", "recording"], "mixed": ["raising", "slow", "sync", "partial", "noargs", "needy", "recording"]}[subset]
         for lab, c in conns.items():
             for fl in flavours:
-                for f in make_subscribers(fl, lab, signals, w.log, names):
+                for f in make_subscribers(fl, lab, signals, w.log, names, conn=c):
                     c.middleware.add_subscriber(f)
             if subset in ("partial", "mixed"):
                 c.middleware.add_middleware(make_middleware_object(lab, w.log, names))
@@ -479,7 +511,8 @@ def run_case(case):
     stats = collections.Counter()
     out, fps = [], set()
     recs = {}
-    for subset in SUBSETS:
+    # (`followup`: subscribers that perform operations of their own; judged on its signals only, its operations differ by design)
+    for subset in SUBSETS + ["followup"]:
         rec = {}
         res = vl.run(lambda loop: lifecycle(loop, case, subset, rec), max_steps=4_000_000, seed=case["seed"])
         if res.exc is not None or "truth" not in rec:
@@ -487,6 +520,10 @@ def run_case(case):
             continue
         if rec.get("unknown"):
             return {"fp": None, "viol": [], "stats": dict(stats), "inconclusive": "fake server saw unknown commands"}
+        if subset == "followup":
+            judge_signals(case, subset, rec, out, stats, fps)
+            stats["operations_performed_by_subscribers"] += sum(1 for t in rec["truth"] if t.get("from_subscriber"))
+            continue
         recs[subset] = rec
         if subset != "none":
             judge_signals(case, subset, rec, out, stats, fps)
